@@ -18,7 +18,7 @@ RULE = (
     "1..14 steps from 8 subscribers (3 unrelated, 5 differing from one of them only in scope id / flow label / port / host) and 'crowd' steps (5..140 further peers send one message each), 2 instances, eventgroups {1,2}, counters {0,1,15}, zero/one/two IPv4/IPv6 endpoint "
     "options (also two that differ in the transport protocol or the address family only) plus non-endpoint options, TTL from {1,2,3,0xFFFFFE,inf}, several entries per message, reboot evidence in "
     "the same or a separate message and on the multicast channel, listener decisions drawn per call, announcer "
-    "stop/start, stop_announce/announce of one instance, connection loss; schedule-aware timing as in C05. "
+    "stop/start, stop_announce/announce of one instance, connection loss; session counters that continue, jump far ahead, reset or repeat; instances in their initial-wait, non-cyclic main or cyclic main phase; schedule-aware timing as in C05. "
     "non-trivial = reboot evidence and a Subscribe in one message, or a rejected Subscribe, or a step within RES of a "
     "deadline, or a service stop with live subscriptions; distinct = distinct case JSON"
 )
@@ -100,12 +100,15 @@ def _step(draw):
     if op == "msg":
         # subscribers 0-2 are unrelated, 3-7 differ from one of them in one component of the socket address only
         s.update(src=draw(st.sampled_from([0, 1, 2, 0, 1, 2, 0, 1, 2, 3, 4, 5, 6, 7])), mc=draw(st.sampled_from([False, False, False, True])),
-                 entries=draw(st.lists(_entry(), min_size=1, max_size=3)), sess=draw(st.sampled_from(["next", "next", "next", "reset", "repeat"])))
+                 entries=draw(st.lists(_entry(), min_size=1, max_size=3)), sess=draw(st.sampled_from(["next", "next", "next", "next", "next", "next", "reset", "reset", "repeat", "repeat", "far"])))
     return s
 
 
 def strategy(tier):
-    return st.builds(lambda steps: {"steps": steps}, st.lists(_step(), min_size=1, max_size=14))
+    # phase of the offer lifecycle the instances are in while the history runs: initial wait (first offer not yet sent),
+    # main phase of a non-cyclic instance (its offer task has ended), cyclic main phase
+    return st.builds(lambda steps, ph: {"steps": steps, "phase": ph}, st.lists(_step(), min_size=1, max_size=14),
+                     st.sampled_from(["main", "main", "initial-wait", "cyclic"]))
 
 
 def fixed_cases(tier):
@@ -133,7 +136,9 @@ def run_case(case):
     log = []
     feats = {"rb_sub": False, "rejected": False, "near": False, "stop_live": False}
     with Sim() as sim:
-        tm = timings(CYCLIC_OFFER_DELAY=0, ANNOUNCE_TTL=INF, SEND_COLLECTION_TIMEOUT=0)
+        phase = case.get("phase", "main")
+        tm = timings(CYCLIC_OFFER_DELAY=1e7 if phase == "cyclic" else 0, ANNOUNCE_TTL=INF, SEND_COLLECTION_TIMEOUT=0,
+                     INITIAL_DELAY_MIN=1e9 if phase == "initial-wait" else 0, INITIAL_DELAY_MAX=1e9 if phase == "initial-wait" else 0)
         prot = make_sd(sim, tm)
         reject = [0]
 
@@ -217,6 +222,8 @@ def run_case(case):
                     flag, sid = True, 1
                 elif s.get("sess") == "repeat" and sid >= 1:
                     pass
+                elif s.get("sess") == "far" and sid < 0x6000:
+                    sid += 0x9000    # the peer has sent many messages we did not see (ids need only increase)
                 else:
                     flag, sid = (flag, sid + 1) if sid < 0xFFFF else (False, 1)
                 sess[k] = (flag, sid)
